@@ -247,6 +247,11 @@ class Type2Tag(Tag):
             # Leave room for ndef message length byte(s) and write
             # ndef data into the memory image, but jump over skip
             # bytes. If space permits, write a terminator tlv.
+            if len(data) >= 255 and (offset + 1) >> 2 != (offset + 2) >> 2:
+                # The three byte length field starts in one page and
+                # continues in the next. Clear the continuation so that
+                # an interrupted final length write reads as length zero.
+                tag_memory[offset+2:offset+4] = b"\x00\x00"
             offset += 2 if len(data) < 255 else 4
             for index, octet in enumerate(data):
                 while offset + index in skip_bytes:
@@ -264,6 +269,11 @@ class Type2Tag(Tag):
             if len(data) < 255:
                 tag_memory[offset+1] = len(data)
             else:
+                if (offset + 2) >> 2 != (offset + 3) >> 2:
+                    # The last length byte is in the next page, it must
+                    # be on the tag before the first two bytes are valid.
+                    tag_memory[offset+3] = len(data) & 0xFF
+                    tag_memory.synchronize()
                 tag_memory[offset+1] = 0xFF
                 tag_memory[offset+2:offset+4] = pack(">H", len(data))
             tag_memory.synchronize()
